@@ -6,6 +6,7 @@ import (
 	"fmt"
 	"math/big"
 	"math/rand/v2"
+	"sort"
 	"strings"
 	"testing/synctest"
 	"time"
@@ -30,8 +31,20 @@ var errEntropy = errors.New("simulated entropy source failure")
 
 func genC19(tier string, seed uint64, run int) *Scenario {
 	r := rand.New(rand.NewPCG(seedFor(seed, "C19", run, "gen"), 1))
-	if tier == "thorough" && run%200 == 199 {
-		return &Scenario{Check: "C19", Kind: "preparams", Seed: seed, Run: run, P: map[string]interface{}{"conc": 3 + r.IntN(6)}}
+	if (tier == "thorough" && run%200 == 199) || (tier != "thorough" && run == 0) {
+		p := map[string]interface{}{"conc": 3 + r.IntN(6)}
+		// half of the pre-parameter runs are fault runs: one of the two prime searches is starved until the
+		// other has finished, then the context is cancelled / the deadline passes / the entropy source dies.
+		// The single quick run is of this kind (it ends when one search is done: about half the cost)
+		k := run / 200
+		if tier != "thorough" {
+			k = 1 + 2*int(seed%6)
+		}
+		if k%2 == 1 {
+			p["starve"] = []string{"paillier", "ntilde"}[(k/2)%2]
+			p["fault"] = []string{"cancel", "deadline", "entropy-dead"}[(k/4)%3]
+		}
+		return &Scenario{Check: "C19", Kind: "preparams", Seed: seed, Run: run, P: p}
 	}
 	if run%5 == 4 {
 		return &Scenario{Check: "C19", Kind: "samplers", Seed: seed, Run: run, P: map[string]interface{}{"tape": []string{"zeros", "ones-then-random", "alternating", "random"}[(run/5)%4]}}
@@ -202,17 +215,98 @@ func drivePreParams(rc *RunCtx) {
 	reader := st.NewNodeRand("gen", "rand")
 	ctx, cancel := context.WithTimeout(context.Background(), 30*time.Minute)
 	defer cancel()
+	// Fault variant: one of the two searches running side by side (the Paillier primes, the NTilde primes)
+	// is starved of entropy until the other one has finished - a state an unlucky machine reaches on its
+	// own - and at that instant the context is cancelled, the deadline passes or the entropy source dies.
+	starve, fault := sc.Str("starve", ""), sc.Str("fault", "none")
+	fired, dead, returned := false, false, false
+	readsAfterReturn := 0
+	var families []int64
+	if starve != "" {
+		st.Filter = func(parked []*parkReq) []*parkReq {
+			if fired {
+				return nil
+			}
+			seen := map[int64]bool{}
+			for _, p := range parked {
+				seen[p.parent] = true
+			}
+			if len(families) == 0 {
+				if len(seen) != 2 {
+					return nil
+				}
+				for g := range seen {
+					families = append(families, g)
+				}
+				sort.Slice(families, func(i, j int) bool { return families[i] < families[j] })
+			}
+			starved := families[0] // the Paillier search is started first
+			if starve == "ntilde" {
+				starved = families[1]
+			}
+			var out []*parkReq
+			for _, p := range parked {
+				if p.parent != starved {
+					out = append(out, p)
+				}
+			}
+			if len(out) > 0 {
+				return out
+			}
+			// quiescent, and only the starved family is reading: the other search has finished
+			fired = true
+			rc.Res.Faults[fault+"-after-one-search-finished"]++
+			switch fault {
+			case "cancel":
+				cancel()
+			case "deadline":
+				time.Sleep(31 * time.Minute)
+			case "entropy-dead":
+				dead = true
+			}
+			return nil
+		}
+	}
+	st.BeforeRelease = func(ord int, d *DRBG) {
+		if returned {
+			readsAfterReturn++
+		}
+		if dead {
+			d.FailAt, d.Err = d.Reads+1, errEntropy
+		}
+	}
 	var pp *eckg.LocalPreParams
 	var err error
 	out := st.Run(func() {
 		pp, err = eckg.GeneratePreParamsWithContextAndRandom(ctx, reader, sc.Int("conc", 6))
+		returned = true
 	})
+	key := fmt.Sprintf("pre-parameters conc=%d starve=%s fault=%s", sc.Int("conc", 6), starve, fault)
 	if out.Panic != nil || out.Deadlock {
-		rc.Fail("panic", "pre-parameter generation: panic=%v deadlock=%v", out.Panic, out.Deadlock)
+		rc.Fail("panic", "%s: panic=%v deadlock=%v", key, out.Panic, out.Deadlock)
+		return
+	}
+	synctestWaitSafe()
+	st.mu.Lock()
+	left := len(st.parked)
+	st.mu.Unlock()
+	if left > 0 || readsAfterReturn > 0 {
+		rc.Fail("goroutine-leak", "%s: %d goroutine(s) still reading entropy after the function returned (%d reads served after return)", key, left, readsAfterReturn)
+		return
+	}
+	if fired && fault != "none" {
+		if err == nil {
+			rc.Fail("fault-ignored", "%s: one of the two prime searches had not finished when the fault struck, yet the function returned no error (Paillier key present: %v)", key, pp != nil && pp.PaillierSK != nil)
+			return
+		}
+		rc.Res.Probes["preparams_stopped_with_error"]++
+		rc.Res.Nontrivial = true
+		rc.Res.Parked = st.ParkCount
+		rc.Res.Sample = map[string]interface{}{"case": key, "error": err.Error(), "reads": st.ParkCount}
 		return
 	}
 	if err != nil {
-		rc.Fail("unexpected-error", "pre-parameter generation failed: %v", err)
+		rc.Fail("unexpected-error", "%s: generation failed: %v", key, err)
 		return
 	}
 	one := big.NewInt(1)
